@@ -41,22 +41,14 @@ def leaf_pool():
     global _LEAVES
     if _LEAVES is None:
         from sasmodels import core
-        import time
-        out = []
-        for n in sorted(core.list_models("all")):
-            info = core.load_model_info(n)
-            if info.structure_factor:
-                continue
-            m = _model(n)
-            k = m.make_kernel([np.array([0.01, 0.1])])
-            from sasmodels import direct_model
-            direct_model.call_kernel(k, {})
-            t0 = time.perf_counter()
-            direct_model.call_kernel(k, {})
-            if time.perf_counter() - t0 < 5e-3:
-                out.append(n)
-        _LEAVES = out
+        from . import c01
+        # by tabulated cost (vp/model_cost.json), not by a timing made now: the pool must not depend on load
+        _LEAVES = [n for n in sorted(core.list_models("all"))
+                   if not core.load_model_info(n).structure_factor and c01.cost(n, 1e-4) < 1.5e-3]
     return _LEAVES
+
+
+VECTOR_SLD = ["core_multi_shell", "onion", "spherical_sld"]
 
 
 @st.composite
@@ -72,6 +64,9 @@ def expr_cases(draw, shard, nshards):
         facs = []
         for _ in range(nf):
             name = draw(st.sampled_from(pool))
+            if draw(st.integers(0, 5)) == 0:
+                # models whose SLDs form a vector: their magnetic slots are counted per element
+                name = draw(st.sampled_from([n for n in VECTOR_SLD if n in pool] or [name]))
             if draw(st.integers(0, 4)) == 0:
                 try:
                     core.load_model_info(name + "@hardsphere")
@@ -103,7 +98,8 @@ def expr_cases(draw, shard, nshards):
                 mag = True
             leaves.append({"model": name, "pars": pars, "zero": zero, "magnetic": mag})
     case = {"terms": terms, "dim": dim, "leaves": leaves,
-            "term_scales": [S.sig(draw(st.floats(0.1, 5)), 4) for _ in terms],
+            # a summand can be switched off with a scale of exactly zero
+            "term_scales": [0.0 if draw(st.integers(0, 5)) == 0 else S.sig(draw(st.floats(0.1, 5)), 4) for _ in terms],
             "scale": S.sig(draw(st.floats(0.1, 5)), 4), "background": draw(st.sampled_from([0.0, 0.03])),
             "up": {"up_frac_i": draw(st.sampled_from([0.0, 0.3, 1.0])), "up_frac_f": draw(st.sampled_from([0.0, 0.6])),
                    "up_theta": 70.0, "up_phi": 15.0},
@@ -183,6 +179,8 @@ def check_mixture(case, rec):
         rec.cls("nested-P@S")
     if any(l["zero"] for l in case["leaves"]):
         rec.cls("zero-component")
+    if len(terms) > 1 and any(v == 0 for v in case["term_scales"]):
+        rec.cls("summand-scale-zero")
     if any_mag:
         rec.cls("magnetic-leaf")
     if sum(1 for l in case["leaves"] if any(k.endswith("_pd_n") for k in l["pars"])) >= 2:
